@@ -120,6 +120,18 @@ def enum_reflected(maxw):
                 yield [a], [op, ["pyint", k], A]
                 yield [a], [op, A, ["pyint", k]]
             yield [a], ["mux", A, ["pyint", 3], A]
+            # Python booleans and enumeration members (plain, IntEnum, amaranth.lib.enum) as direct operands
+            others = [["pybool", 0], ["pybool", 1]] + [["pyenum", k, nm] for k, e in enumerate(X.PYENUMS) for nm in e[3]]
+            for op in X.BINARY:
+                for o in others:
+                    if op in ("shl", "shr") and X.ref_shape(o, [])[1]:
+                        yield [a], [op, o, A]
+                        continue
+                    yield [a], [op, o, A]
+                    yield [a], [op, A, o]
+            for o in others:
+                yield [a], ["mux", A, o, A]
+                yield [a], ["cat", [A, o]]
     Ssmall = [s for s in S if s[0] <= 2]
     for a in Ssmall:
         for b in Ssmall:
